@@ -2,7 +2,11 @@
 import p_subfam as fam
 
 PID = "C08"
-MODELS = [("Subscribe.tla", "Subscribe_none.cfg", False), ("CoalesceChan.tla", "CoalesceChan_none.cfg", False)]
+# SendTimer.tla: the send-timeout discipline of a sender (a timer is running only while a Send is in progress; a Send that never
+# returns ends the RPC, the sync response included); its three mutants are the seeded changes C05-3, C07-3 and the defect repaired in 37265f9
+MODELS = [("Subscribe.tla", "Subscribe_none.cfg", False), ("CoalesceChan.tla", "CoalesceChan_none.cfg", False),
+          ("SendTimer.tla", "SendTimer_none.cfg", False), ("SendTimer.tla", "SendTimer_sync_not_stopped.cfg", True),
+          ("SendTimer.tla", "SendTimer_armed_before_acl.cfg", True), ("SendTimer.tla", "SendTimer_sync_uncovered.cfg", True)]
 RULE = ("random scenarios in which 1-2 STREAM subscribers are stalled at a driver gate inside Send - from their very first send (snapshot or sync_response) "
         "or in a later phase, transiently (released when the phase's writers are done; server timeout 60 s) or permanently (server timeout 100 ms) - while "
         "writers issue bursts of 4-24 operations per target over small leaf sets and other subscribers stream. Checked by TLC on the recorded events: writers "
@@ -13,7 +17,8 @@ RULE = ("random scenarios in which 1-2 STREAM subscribers are stalled at a drive
 
 
 def run(tier):
-    runs = [("stall", 1200)] if tier == "quick" else [("stall", 40000)]
+    # 'idle': silences longer than the send timeout - a subscriber that is merely idle is never terminated
+    runs = [("stall", 1200), ("idle", 32)] if tier == "quick" else [("stall", 40000), ("idle", 640)]
     rc1 = fam.run_family(PID, tier, runs, MODELS, RULE,
                          ["update rates are modelled as burst sizes against a closed gate, not as wall-clock throughput",
                           "timing verdicts use bounds >= 50x the configured timeout"], shards=16 if tier == "quick" else 48)
